@@ -165,6 +165,17 @@ cfg_if! {
 }
 
 pub fn utf8_valid_up_to(src: &[u8]) -> usize {
+    // Verification hook (add-only): a local item shadows the module-level
+    // function of the same name inside this body and consults a run-time switch.
+    #[cfg(feature = "hsivonen_encoding_rs_verif")]
+    #[inline(always)]
+    fn fast_utf8_valid_up_to(src: &[u8]) -> Option<usize> {
+        if crate::verif_hooks::force_scalar_utf8_validation() {
+            None
+        } else {
+            self::fast_utf8_valid_up_to(src)
+        }
+    }
     if let Some(up_to) = fast_utf8_valid_up_to(src) {
         return up_to;
     }
